@@ -352,7 +352,11 @@ var scribbleWords = []string{"*", "https://evil.example", "x-evil", "null", "tru
 func scribble(s []string, with string) {
 	s = s[:cap(s)]
 	for i := range s {
-		s[i] = with
+		if strings.HasPrefix(with, "+") { // "adds one more value" to the element instead of replacing it
+			s[i] += with[1:]
+		} else {
+			s[i] = with
+		}
 	}
 }
 
@@ -1094,6 +1098,10 @@ func cmdLife(args []string) {
 			lr.zero("m3")
 			c3 := *c
 			lr.reconf("m3", "c", &c3)
+			// traffic first: Config() is read from middlewares that have served, behind a handler that edits in place whatever
+			// header values it can reach (overwriting them, or extending the existing value "with one more name")
+			lr.mutatingServe("m1", []string{"+, X-Request-Id", "x-evil", "*", "+,x-more", "https://evil.example"}[ncases%5])
+			lr.mutatingServe("m3", []string{"*", "+, X-Request-Id", "true"}[ncases%3])
 			// m2 built from m1.Config()
 			var c1 cors.Config
 			if p := lr.mws["m1"].Config(); p != nil {
